@@ -64,6 +64,11 @@ type Exec struct {
 	deferred          *Violation
 }
 
+// touchesChildTree: does the batch create or delete a child collection at any level?
+func touchesChildTree(b *BatchSpec) bool {
+	return b != nil && (len(b.Kids) > 0 || len(b.DelKids) > 0)
+}
+
 func countOps(b *BatchSpec) int {
 	if b == nil {
 		return 0
@@ -1074,6 +1079,18 @@ func (e *Exec) caughtUp() bool {
 	if !e.storeMaybeAll || !e.collOpen {
 		return false
 	}
+	// The match is ambiguous (an earlier model has the same content) and the
+	// dirty gauges are to break the tie.  They cannot vouch for structural
+	// changes of the child tree (known finding KF1: the gauges count
+	// operations, bytes and segments, and such changes have none), so with a
+	// batch that creates or deletes child collections among those the lower
+	// level is not known to hold, the question stays open.
+	for j := e.lb + 1; j <= e.hist.N() && j < len(e.hist.Specs); j++ {
+		if touchesChildTree(e.hist.Specs[j]) {
+			e.probe("caught-up-undecided-structural")
+			return false
+		}
+	}
 	st, err := e.coll.Stats()
 	if err != nil || st == nil {
 		return false
@@ -1229,7 +1246,9 @@ func (e *Exec) afterReopen(wasDrained, gaugesZero bool, why string) {
 	n := e.hist.N()
 	if wasDrained && j != n && !contains(J, n) {
 		ss.Close()
-		e.failD("reopen-lost-data", map[string]string{"symptom": "drained-but-lost", "where": "reopen"},
+		e.failD("reopen-lost-data", map[string]string{"symptom": "drained-but-lost", "where": "reopen",
+			// is everything the reopened content lacks structural (child collections created empty / deleted)?
+			"pendingStructuralOnly": fmt.Sprint(e.hist.PendingStructuralOnly(J[len(J)-1]))},
 			"persistence had caught up with all %d batches before closing, yet the reopened content is prefix %v", n, J)
 	}
 	if contains(J, n) {
